@@ -281,7 +281,7 @@ pub fn run(ctx: &Ctx) -> i32 {
     reports.push(exhaustive_suite(ctx, "large_dimension_pictures", nlarge, &large_item));
     reports.push(fixed_formats_suite());
     let cfg = cfg_for(ctx.tier);
-    let cases = ctx.tier.pick(30_000u64, 300_000u64);
+    let cases = ctx.tier.pick(30_000u64, 600_000u64);
     reports.push(tape_suite(ctx, "random_pictures", cases, 6144, &move |g| random_case(g, &cfg)));
     let mut extra = Map::new();
     extra.insert("grid".into(), json!(format!("every (w,h) in 1..={} x 1..={}, I and P picture each, quantizers cycling 1..31", gw, gh)));
